@@ -1,0 +1,39 @@
+//go:build verif
+// +build verif
+
+package pogs
+
+// Wrapper for the translation validation of the verification framework (compiled only with
+// the build tag "verif").
+
+import (
+	"capnproto.org/go/capnp/v3"
+	"capnproto.org/go/capnp/v3/internal/schema"
+)
+
+// VerifArith calls the function that gotrans translates to the Coq definition `name`:
+// go_isFieldInBounds with arguments t.Which(), sz.DataSize, sz.PointerCount, off.
+func VerifArith(name string, a []uint64) (results []uint64, panicked bool) {
+	if name != "go_isFieldInBounds" || len(a) != 4 {
+		panic("pogs.VerifArith: unknown function or wrong number of arguments: " + name)
+	}
+	defer func() {
+		if e := recover(); e != nil {
+			results, panicked = nil, true
+		}
+	}()
+	_, seg, err := capnp.NewMessage(capnp.SingleSegment(nil))
+	if err != nil {
+		panic(err)
+	}
+	t, err := schema.NewRootType(seg)
+	if err != nil {
+		panic(err)
+	}
+	t.Struct.SetUint16(0, uint16(a[0]))
+	sz := capnp.ObjectSize{DataSize: capnp.Size(a[1]), PointerCount: uint16(a[2])}
+	if isFieldInBounds(sz, uint32(a[3]), t) {
+		return []uint64{1}, false
+	}
+	return []uint64{0}, false
+}
